@@ -16,7 +16,7 @@ TRUSTED = ["Coq 8.16.1 kernel + vm_compute + primitive floats",
 RULE = ("all (y_true, y_pred) in {0,1}^2 sequences of length n (n=4 quick / 6 thorough) x parameter grid, plus random piecewise-stationary sequences of "
         "100-160 pairs; every subset of tracked rates, subsample in {1,2,3}, burn_in small, num_mc small, under np.random.seed(f(case, step)) before every update. "
         "Non-trivial: the trace contains a warning or a drift; distinct by content."
-        " Also: regimes (decay, burn-in) in which decisions depend on the rates; a no-burn-in family whose first warning falls on stream index 0; round_val 0; labels as Python / numpy booleans; every simulated sample checked against the percentile model.")
+        " Also: long (430-560 samples) almost error-free epochs in which successive rates differ by less than 1e-5 (exact inequality decides whether a rate changed); regimes (decay, burn-in) in which decisions depend on the rates; a no-burn-in family whose first warning falls on stream index 0; round_val 0; labels as Python / numpy booleans; every simulated sample checked against the percentile model.")
 SHARD = 60
 RATES = ["tpr", "tnr", "ppv", "npv"]
 BK = ("lb_warn", "ub_warn", "lb_detect", "ub_detect")
@@ -184,6 +184,22 @@ def gen_cases(ctx):
             t = 1 if ctx.rng.random() < pos else 0
             pairs.append([t, t if ok else 1 - t])
         cases.append({"params": p, "pairs": pairs, "seed": 1000 + k})
+    # long, almost error-free epochs: from ~316 samples in a rate's denominator on, one more correct sample moves the rate by
+    # less than 1e-5 relative - "the rate changed" must still be decided by exact inequality (a tolerance freezes the statistic)
+    r3 = __import__("random").Random(ctx.seed + 11)
+    for k in range(ctx.scale(6, 40)):
+        p = {"eta": r3.choice([0.99, 0.99, 0.9, 0.75]), "warn": r3.choice([0.3, 0.1]), "detect": r3.choice([0.05, 0.01]),
+             "burn_in": r3.choice([150, 380, 480]), "num_mc": 8, "subsample": r3.choice([20, 45]),
+             "tracked": r3.choice([list(RATES), ["tpr"], ["tnr", "npv"], ["ppv"]]), "round_val": r3.choice([2, 4])}
+        length, perr, pos = r3.randint(430, 560), r3.choice([0.0, 0.003, 0.01]), r3.choice([1.0, 0.0, 0.8, 0.2])
+        pairs = []
+        for _ in range(length):
+            t = 1 if r3.random() < pos else 0
+            pairs.append([t, 1 - t if r3.random() < perr else t])
+        if perr == 0.0 and k % 2 == 0:           # exactly one error, late in the epoch
+            j = r3.randint(440, length) - 1 if length > 440 else length - 1
+            pairs[j][1] = 1 - pairs[j][0]
+        cases.append({"params": p, "pairs": pairs, "seed": 3000 + k})
     import random
     r2 = random.Random(ctx.seed + 5)
     for c in cases:
